@@ -285,7 +285,7 @@ def main(argv):
         renv = dict(env)
         if comp != "none":
             renv.update({"LD_PRELOAD": hx_bin("libvcodec.so"), "VCODEC_LOG": logp, "VCODEC_DATA": "0"})
-        st, so, se = run_tool(argv_, stdin=data, timeout=60, cwd=d, env=renv)
+        st, so, se = codeclog.run_tool_limited(argv_, stdin=data, timeout=60, cwd=d, env=renv)
         bucket = "tool/n=%s/%s/%s/%s" % ("1" if n == 1 else "2-9" if n < 10 else "10-17", comp, r["kind"], r["naming"])
         c.count(("run", ri, n, comp, spec, data), bucket=bucket)
         how = "printf %%s '<input>' | shard -f %s -d '%s' -c %s %s" % (spec, delim.decode().replace("\t", "\\t"), comp, " ".join(args))
@@ -372,7 +372,7 @@ def main(argv):
         if r["kind"] in ("few", "some") and recs:
             d2 = os.path.join(d, "dir")
             data2 = b"\n".join(reversed(recs)) + b"\n"
-            st2, _, _ = run_tool([repo_bin("shard"), "-f", spec, "-d", delim.decode(), "-c", "none"] + ["m%d" % i for i in range(n)],
+            st2, _, _ = codeclog.run_tool_limited([repo_bin("shard"), "-f", spec, "-d", delim.decode(), "-c", "none"] + ["m%d" % i for i in range(n)],
                                  stdin=data2, timeout=60, cwd=d2, env=env)
             if st2 == 0:
                 for i in range(n):
@@ -384,11 +384,11 @@ def main(argv):
         # (5) dedupe commutes with sharding (multiset)
         if r["kind"] in ("few", "some", "many") and ri % 3 == 0:
             dd = [repo_bin("dedupe"), "-f", spec, "-d", delim.decode()]
-            st3, whole, _ = run_tool(dd, stdin=b"".join(l + b"\n" for l in recs), timeout=60)
+            st3, whole, _ = codeclog.run_tool_limited(dd, stdin=b"".join(l + b"\n" for l in recs), timeout=60)
             parts = []
             okd = st3 == 0
             for o in outs:
-                s4, po, _ = run_tool(dd, stdin=o, timeout=60)
+                s4, po, _ = codeclog.run_tool_limited(dd, stdin=o, timeout=60)
                 okd = okd and s4 == 0
                 parts += records(po)
             c.count(("dedupe", ri), bucket="dedupe-commutes")
@@ -467,6 +467,13 @@ def main(argv):
                     break
             c.cov["traces_validated_against_impl"] += len(tl)
             c.cov["distribution"]["model-with-computed-key-hash"] = len(tl)
+    # thorough: naming, option handling and key hashing again through the ASan+UBSan build of the harness
+    if c.tier == "thorough":
+        hl_asan = []
+        for ri, r, data, recs, outs in pending[:40]:
+            for l in recs[:200]:
+                hl_asan.append("H %s %s %s" % (r["spec"], r["delim"].hex(), l.hex() if l else "-"))
+        asan_lines(c, "hx_shard", nlines + alines + hl_asan, what="(ParseArgs, RangeFields, HashCallback)")
     # block sizes handed to the writer: model vs kBlockSize arithmetic
     if drv:
         rc, kout, _ = run_lines(drv, ["K"])
